@@ -1640,3 +1640,123 @@ _run_before_modtable = run
 def run(chk):       # noqa: F811
     _run_before_modtable(chk)
     rule_mod_table(chk, get_index())
+
+
+# ---------------------------------------------------------------------------------------------------
+# C11.maxday-args: the month-length guard looks up the month of the year of the date it protects
+
+MAXDAY_CONTROL = '''
+def f(self, reference, day):
+    year = reference.year
+    month = reference.month
+    year += 1
+    if day > self.get_month_max_day(reference.year, month):
+        d = None
+    else:
+        d = DateUtils.safe_create_from_min_value(year, month, day)
+    return d
+'''
+DATE_BUILDERS = ('safe_create_from_min_value', 'datetime')
+
+
+def _alias_nf(fn, e):
+    """normal form of an argument: a local bound exactly once to a name / attribute chain is replaced by it"""
+    binds = {}
+    for n in ast.walk(fn):
+        tg = []
+        if isinstance(n, ast.Assign):
+            tg = [(t, n.value) for t in n.targets]
+        elif isinstance(n, (ast.AugAssign, ast.AnnAssign)):
+            tg = [(n.target, None if isinstance(n, ast.AugAssign) else n.value)]
+        elif isinstance(n, (ast.For, ast.comprehension)):
+            tg = [(n.target, None)]
+        for t, v in tg:
+            for nm in ast.walk(t):
+                if isinstance(nm, ast.Name):
+                    binds.setdefault(nm.id, []).append(v if isinstance(t, ast.Name) else None)
+    seen = set()
+    while isinstance(e, ast.Name) and e.id in binds and len(binds[e.id]) == 1 and e.id not in seen:
+        v = binds[e.id][0]
+        if not isinstance(v, (ast.Name, ast.Attribute)):
+            break
+        seen.add(e.id)
+        e = v
+    return ast.unparse(e)
+
+
+def maxday_sites(fn):
+    """[(call, verdict, detail)] for every get_month_max_day(y, m) call of fn; verdict True/False; raises AnalysisError"""
+    par = parents_of(fn)
+    out = []
+    for call in own_walk(fn):
+        if not (isinstance(call, ast.Call) and callee_name(call) == 'get_month_max_day'):
+            continue
+        if len(call.args) != 2 or call.keywords:
+            raise AnalysisError('%s:%d: get_month_max_day call is not of the form (year, month)' % (fn.name, call.lineno))
+        cmp_ = par.get(call)
+        top, negated = cmp_, False
+        while isinstance(par.get(top), ast.UnaryOp) and isinstance(par[top].op, ast.Not):
+            top, negated = par[top], not negated
+        if not (isinstance(cmp_, ast.Compare) and len(cmp_.ops) == 1 and isinstance(par.get(top), ast.If)
+                and par[top].test is top):
+            raise AnalysisError('%s:%d: get_month_max_day is not compared directly in an `if` test' % (fn.name, call.lineno))
+        iff, op = par[top], cmp_.ops[0]
+        call_right = cmp_.comparators[0] is call
+        other = cmp_.left if call_right else cmp_.comparators[0]
+        if isinstance(op, (ast.Gt, ast.GtE)):
+            over_is_body = call_right           # day > max  -> body is the overflow branch
+        elif isinstance(op, (ast.Lt, ast.LtE)):
+            over_is_body = not call_right       # max < day  -> body is the overflow branch
+        else:
+            raise AnalysisError('%s:%d: get_month_max_day compared with %s' % (fn.name, call.lineno, type(op).__name__))
+        inrange = iff.orelse if over_is_body != negated else iff.body
+        y, m, d = _alias_nf(fn, call.args[0]), _alias_nf(fn, call.args[1]), _alias_nf(fn, other)
+        builds = []
+        for st in inrange:
+            for n in ast.walk(st):
+                if isinstance(n, ast.Call) and callee_name(n) in DATE_BUILDERS and len(n.args) >= 3 and not n.keywords:
+                    builds.append(tuple(_alias_nf(fn, a) for a in n.args[:3]))
+        same_md = sorted({b for b in builds if b[1] == m and b[2] == d})
+        if not same_md:
+            raise AnalysisError('%s:%d: the in-range branch of the get_month_max_day(%s, %s) guard builds no date from (%s, %s)'
+                                % (fn.name, call.lineno, y, m, m, d))
+        years = sorted({b[0] for b in same_md})
+        out.append((call, years == [y], 'guard get_month_max_day(%s, %s) protects date(%s, %s, %s)'
+                    % (y, m, '|'.join(years), m, d)))
+    return out
+
+
+def rule_maxday_args(chk, idx):
+    rid = 'C11.maxday-args'
+    chk.rule(rid, 'the month-length test `day > get_month_max_day(y, m)` is asked about the year and month of the date built in its '
+                  'in-range branch (same normal form): otherwise Feb 29 of a leap target year is resolved to neighbouring months '
+                  'while the TIMEX names it', floor=1, control=True)
+    cs = maxday_sites(ast.parse(MAXDAY_CONTROL).body[0])
+    chk.control(rid, len(cs) == 1 and cs[0][1] is False)
+    n = 0
+    for mod in pkg_mods(idx):
+        if '.resources' in mod.name:
+            continue
+        for m, cls, fn in idx.functions(mod):
+            for call, good, detail in maxday_sites(fn):
+                n += 1
+                chk.consulted(mod.path)
+                construct = '%s.%s' % (cls.name if cls else '', fn.name)
+                if good:
+                    chk.ok(rid, mod.path, construct, detail, call.lineno)
+                else:
+                    chk.bad(rid, mod.path, construct, detail,
+                            '`%s` tests the day against the length of a month of another year than the one the value is built '
+                            'with: when only one of the two years is a leap year, 29 February is either sent to the overflow '
+                            'fallback (values in January/March under a TIMEX naming February 29) or passed to the date builder '
+                            'and lost' % ast.unparse(call), call.lineno)
+    if n < 1:
+        raise AnalysisError('anchor vanished: no get_month_max_day(year, month) guard found in the date-time parsers')
+
+
+_run_before_maxday = run
+
+
+def run(chk):       # noqa: F811
+    _run_before_maxday(chk)
+    rule_maxday_args(chk, get_index())
